@@ -30,7 +30,11 @@ var presentationFlags = []string{"-a", "-zip", "-no_lexer", "-debug_lexer", "-de
 func genFlags(t *rapid.T, hasSyntax bool) []string {
 	var out []string
 	for _, f := range presentationFlags {
-		if rapid.IntRange(0, 3).Draw(t, "flag"+f) == 0 {
+		p := 3
+		if hasSyntax && (f == "-a" || f == "-zip") {
+			p = 1 // conflict resolution and the encoded tables are where order can leak
+		}
+		if rapid.IntRange(0, p).Draw(t, "flag"+f) == 0 {
 			out = append(out, f)
 		}
 	}
@@ -57,7 +61,7 @@ func genFlags(t *rapid.T, hasSyntax bool) []string {
 
 func genAnyGrammar(t *rapid.T, big bool) *gr.Grammar {
 	lo := gen.DefaultLexOpts()
-	so := gen.SynOpts{}
+	so := gen.SynOpts{ErrorAlts: rapid.IntRange(0, 2).Draw(t, "errorAlts") == 0}
 	if big {
 		lo.MaxTokens, lo.MaxRegs = 8, 4
 		so.MaxNT, so.MaxTerms = 8, 8
